@@ -30,12 +30,6 @@ GetFrom(entries, key, i) == IF i > Len(entries) THEN Missing ELSE IF entries[i].
 Get(val, key) == IF val.k = "obj" THEN GetFrom(val.entries, key, 1) ELSE Missing
 
 \* ---- what the property looks at (reference field collection, GraphQL 6.3.2) ----
-PFields(x) == RootFields(x, x.doc)
-PKinds(x) == LET fs == PFields(x) IN {KindOfName(x.op, fs[i].name) : i \in 1..Len(fs)}
-MetaKeys(x) == LET fs == PFields(x) IN {fs[i].key : i \in {j \in 1..Len(fs) : KindOfName(x.op, fs[j].name) \in MetaKinds}}
-ObsMetaKeys(x) == {key \in MetaKeys(x) : \E i \in 1..Len(x.obs.resps) : Get(x.obs.resps[i].data, key) \notin {Missing, Null}}
-ObsLog(x) == {x.obs.log[i] : i \in 1..Len(x.obs.log)}
-
 \* a root field of this kind may legitimately be refused (error / rejected request) in this cell of the table.
 \* The property leaves open whether the service description is served under IntrospectionOnly.
 MayRefuse(x, k) ==
@@ -45,8 +39,8 @@ MayRefuse(x, k) ==
   \/ k = "_service" /\ (~MetadataAllowed(x.s, x.r) \/ ~ResolversAllowed(x.s, x.r))
   \/ k \in ResolverKinds /\ ~ResolversAllowed(x.s, x.r)
   \/ k = "__typename" /\ x.op = "subscription"        \* Oct 2021 5.2.3.1: not a valid subscription root field
-TypenameRequired(x) == \A k \in PKinds(x) : ~MayRefuse(x, k)
 
+\* rootVal: response key -> the value a root __typename must have
 TypenameInField(x, f, data, rootVal) ==
   LET k == KindOfName(x.op, f.name)
       v == Get(data, f.key)
@@ -55,46 +49,54 @@ TypenameInField(x, f, data, rootVal) ==
        [] k = "nested"     -> v \in {Missing, Null} \/ Get(v, "__typename") = Str(NestedType(RootName(x.op)))
        [] k = "_entities"  -> v \in {Missing, Null} \/ (v.k = "list" /\ \A n \in 1..Len(v.items) : v.items[n] = Null \/ Get(v.items[n], "__typename") = Str(TS.entity.type))
        [] OTHER -> TRUE
-TypenameOKAs(x, rootName) ==
-  LET fs == PFields(x) IN
+TypenameOKAs(x, fs, rootVal) ==
   IF x.op = "subscription"
-  THEN \A i \in 1..Len(fs) : \A j \in 1..Len(x.obs.resps) : TypenameInField(x, fs[i], x.obs.resps[j].data, rootName)
-  ELSE Len(x.obs.resps) = 1 /\ \A i \in 1..Len(fs) : TypenameInField(x, fs[i], x.obs.resps[1].data, rootName)
-RootKeys(x) == LET fs == PFields(x) IN {fs[i].key : i \in 1..Len(fs)}
-TypenameOK(x) == TypenameOKAs(x, [k \in RootKeys(x) |-> Str(RootName(x.op))])
-\* DevStaticEmptyMutationTypename: the substituted root reports its own name where its fragments apply, nothing elsewhere
-TypenameOKDev(x) == TypenameOKAs(x, [k \in RootKeys(x) |-> IF k \in EmptyRootKeys(x, x.doc) THEN Str("EmptyMutation") ELSE Missing])
-
-Failures(x) ==
-  (IF ~MetadataAllowed(x.s, x.r) /\ ObsMetaKeys(x) # {} THEN {"metadata"} ELSE {})
-  \cup (IF ~ResolversAllowed(x.s, x.r) /\ ObsLog(x) # {} THEN {"resolver"} ELSE {})
-  \cup (IF TypenameRequired(x) /\ ~TypenameOK(x) THEN {"typename"} ELSE {})
+  THEN \A i \in 1..Len(fs) : \A j \in 1..Len(x.obs.resps) : TypenameInField(x, fs[i], x.obs.resps[j].data, rootVal)
+  ELSE Len(x.obs.resps) = 1 /\ \A i \in 1..Len(fs) : TypenameInField(x, fs[i], x.obs.resps[1].data, rootVal)
 
 RECURSIVE JoinSet(_)
 JoinSet(S) == IF S = {} THEN "" ELSE LET m == CHOOSE y \in S : TRUE IN
               IF Cardinality(S) = 1 THEN m ELSE m \o "," \o JoinSet(S \ {m})
 
-Explained(x, D) ==
-  /\ \A d \in D : Trigger(d, x, x.doc)
-  /\ ("typename" \in Failures(x) => "DevStaticEmptyMutationTypename" \in D /\ TypenameOKDev(x))
-  /\ ObsMetaKeys(x) \subseteq ModelMayServe(x, x.doc, D)
-  /\ ObsLog(x) \subseteq ModelMayInvoke(x, x.doc, D)
-Verdict(x) ==
-  IF x.obs.problem # "" THEN "violation:problem"
-  ELSE IF Failures(x) = {} THEN "ok"
-  ELSE LET E == {D \in SUBSET Devs : D # {} /\ Explained(x, D)} IN
-       IF E = {} THEN "violation:" \o JoinSet(Failures(x))
-       ELSE "known:" \o JoinSet(CHOOSE D \in E : \A D2 \in E : Cardinality(D2) >= Cardinality(D))
-
-\* drift: exact prediction of the implementation-shaped model with today's deviations
-Drift(x) ==
-  IF x.obs.problem # "" THEN "problem"
-  ELSE IF ObsMetaKeys(x) # ModelServes(x, x.doc, Devs) THEN "serves"
-  ELSE IF ObsLog(x) # ModelInvokes(x, x.doc, Devs) THEN "invokes"
-  ELSE ""
+\* <<verdict, drift>> of one recorded case
+Judge(x) ==
+  LET fs       == RootFields(x, x.doc)                       \* property side: reference field collection
+      ef       == IF x.op = "subscription" THEN DirectFields(x.doc) ELSE fs    \* what the executor looks at
+      kinds    == {KindOfName(x.op, fs[i].name) : i \in 1..Len(fs)}
+      rootKeys == {fs[i].key : i \in 1..Len(fs)}
+      metaKeys == {fs[i].key : i \in {j \in 1..Len(fs) : KindOfName(x.op, fs[j].name) \in MetaKinds}}
+      obsMeta  == {key \in metaKeys : \E i \in 1..Len(x.obs.resps) : Get(x.obs.resps[i].data, key) \notin {Missing, Null}}
+      obsLog   == {x.obs.log[i] : i \in 1..Len(x.obs.log)}
+      tnReq    == \A k \in kinds : ~MayRefuse(x, k)
+      tnOK     == TypenameOKAs(x, fs, [k \in rootKeys |-> Str(RootName(x.op))])
+      \* DevStaticEmptyMutationTypename: the substituted root reports its own name where its fragments apply, nothing elsewhere
+      tnOKDev  == TypenameOKAs(x, fs, [k \in rootKeys |-> IF k \in EmptyRootKeys(x, x.doc) THEN Str("EmptyMutation") ELSE Missing])
+      failures == (IF ~MetadataAllowed(x.s, x.r) /\ obsMeta # {} THEN {"metadata"} ELSE {})
+                  \cup (IF ~ResolversAllowed(x.s, x.r) /\ obsLog # {} THEN {"resolver"} ELSE {})
+                  \cup (IF tnReq /\ ~tnOK THEN {"typename"} ELSE {})
+      Explained(D) ==
+        LET o == Outcomes(x, x.doc, ef, D) IN
+        /\ \A d \in D : Trigger(d, x, ef)
+        /\ ("typename" \in failures => "DevStaticEmptyMutationTypename" \in D /\ tnOKDev)
+        /\ obsMeta \subseteq MayServeO(o)
+        /\ obsLog \subseteq MayInvokeO(x, o)
+      verdict ==
+        IF x.obs.problem # "" THEN "violation:problem"
+        ELSE IF failures = {} THEN "ok"
+        ELSE LET E == {D \in SUBSET Devs : D # {} /\ Explained(D)} IN
+             IF E = {} THEN "violation:" \o JoinSet(failures)
+             ELSE "known:" \o JoinSet(CHOOSE D \in E : \A D2 \in E : Cardinality(D2) >= Cardinality(D))
+      \* drift: exact prediction of the implementation-shaped model with today's deviations
+      today == Outcomes(x, x.doc, ef, Devs)
+      drift ==
+        IF x.obs.problem # "" THEN "problem"
+        ELSE IF obsMeta # ServesO(today) THEN "serves"
+        ELSE IF obsLog # InvokesO(x, today) THEN "invokes"
+        ELSE ""
+  IN <<verdict, drift>>
 
 TInit == l = 1 /\ c = [s |-> "Enabled"]
 TNext == /\ l <= Len(Cases)
-         /\ PrintT(<<"VERDICT", Cases[l].id, Verdict(Cases[l]), Drift(Cases[l])>>)
+         /\ LET j == Judge(Cases[l]) IN PrintT(<<"VERDICT", Cases[l].id, j[1], j[2]>>)
          /\ l' = l + 1 /\ UNCHANGED c
 =============================================================================
